@@ -113,6 +113,12 @@ CLAIMED = {
    design="5/C14",
    note="Trusted: Svg.tla/WinconExtract.tla/Sgr.tla/Lossy.tla/VtParser.tla, TLC. XML well-formedness is decided by expat (observation tooling tools/svg2json.py), not by the specification. Background rows are compared as sets of colours per line.",
    technique="TLA+ spec (Svg over WinconExtract + Lossy) + TLC trace validation of expat-parsed documents"),
+ "C19": dict(
+   level="model_checking",
+   text="PrintLock.tla models a print call as Acquire; WriteFragment*; Release; TLC explores all schedules of 3 threads x 2 calls x 3 fragments and shows the output is a concatenation of whole records, while the per-fragment-locking variant (what a non-forwarded write_fmt/write_all does) yields an interleaving counterexample. Real schedules: a child process with 2..16 threads issues multi-fragment print!/println!/write!/write_all calls (escape sequences split across fragments, buffers longer than std's line buffer) through anstream::stdout()/stderr() into a shrunk pipe read slowly, in stripping and pass-through mode; the byte stream is cut into fragments and validated by Trace_PrintLock. AtomicChoice.tla specifies the global choice as a linearizable register; histories of concurrent readers/writers (short rounds and long stress rounds), ordered by SeqCst invocation/response numbers, are checked by a TLC depth-first search for a linearization.",
+   design="5/C19",
+   note="TLC explores all schedules of the model; the real threads show only the schedules the OS produces (16 cores, small pipe, slow reader). No hook is placed inside std's lock. Trusted: PrintLock.tla, AtomicChoice.tla, TLC, the tokenizer of the pipe content.",
+   technique="TLA+ spec (PrintLock, AtomicChoice) + TLC: exhaustive schedule exploration of the model; observed pipe output and register histories validated by TLC (linearization search)"),
 }
 PENDING_REASON = "check not built yet in this revision of /verif (planned with the TLA+ specification, see DESIGN.md section 5); not claimed until its quick command exists"
 
